@@ -181,6 +181,14 @@ type gen struct {
 	name   string
 	modest bool // TTLs from the modest list (histories)
 	tag    string
+	fixTTL int64 // > 0: every TTL of the next messages is this value
+}
+
+func (g *gen) ttl() uint32 {
+	if g.fixTTL > 0 {
+		return uint32(g.fixTTL)
+	}
+	return pickTTL(g.r, g.modest)
 }
 
 func (g *gen) addrs(fam, n int, what string) []netip.Addr {
@@ -204,7 +212,7 @@ func (g *gen) make(kind string, fam int) *resp {
 		sp.addrs = g.addrs(fam, n, kind)
 		min := int64(-1)
 		for range sp.addrs {
-			t := pickTTL(r, g.modest)
+			t := g.ttl()
 			sp.ttls = append(sp.ttls, t)
 			if min < 0 || int64(t) < min {
 				min = int64(t)
@@ -234,11 +242,11 @@ func (g *gen) make(kind string, fam int) *resp {
 	case "cname":
 		positive(true)
 	case "nodata_soa":
-		t := pickTTL(r, g.modest)
+		t := g.ttl()
 		sp.soaTTL, rp.Cand = int64(t), int64(t)
 	case "nodata":
 	case "nx_soa":
-		t := pickTTL(r, g.modest)
+		t := g.ttl()
 		sp.rcode, sp.soaTTL, rp.Cand = dnsmessage.RCodeNameError, int64(t), int64(t)
 	case "nx":
 		sp.rcode = dnsmessage.RCodeNameError
